@@ -110,6 +110,59 @@ let parse_ty (s : ostring) : ty =
     | c -> failwith ("bad type encoding at " ^ Stdlib.String.make 1 c)
   in go ()
 
+(* ---- C07: index forms ---- *)
+let parse_shape (s : ostring) : ishape =
+  if s = "S" then Scalar else Vector (s.[1] = '1', n_of_dec (Stdlib.String.sub s 2 (Stdlib.String.length s - 2)))
+let parse_form (s : ostring) : iform =
+  match Stdlib.String.index_opt s ':' with
+  | None -> failwith "form"
+  | Some i ->
+    let k = Stdlib.String.sub s 0 i and a = Stdlib.String.sub s (i+1) (Stdlib.String.length s - i - 1) in
+    (match k with
+     | "int" -> IConst (CInt (z_of_dec a))
+     | "bool" -> IConst (CBoolLit (a = "1"))
+     | "zero" -> IConst (CZero (parse_shape a))
+     | "vec" -> IConst (CVec (List.map (fun e -> EInt (z_of_dec e)) (Stdlib.String.split_on_char '|' a)))
+     | "undef" -> IConst (CUndef (parse_shape a))
+     | "poison" -> IConst (CPoison (parse_shape a))
+     | "ptrtoint" -> IConst (CPtrToInt (parse_shape a))
+     | "expr" -> IConst (CExpr (parse_shape a))
+     | "value" -> IValue (parse_shape a)
+     | _ -> failwith "form kind")
+let parse_forms (s : ostring) = if s = "" then [] else List.map parse_form (Stdlib.String.split_on_char ',' s)
+let parse_tys (s : ostring) : ty list =     (* concatenated encodings *)
+  let res = ref [] and rest = ref s in
+  while !rest <> "" do
+    (* parse one type and find how much was consumed by re-encoding length: use a position-tracking copy *)
+    let pos = ref 0 in
+    let str = !rest in
+    let next () = let c = str.[!pos] in incr pos; c in
+    let num () = let st = !pos in while str.[!pos] <> ';' do incr pos done; let r = Stdlib.String.sub str st (!pos - st) in incr pos; r in
+    let flag () = next () = '1' in
+    let rec go () : ty =
+      match next () with
+      | 'v' -> TVoid | 'm' -> TMMX | 'l' -> TLabel | 'k' -> TToken | 'M' -> TMetadata
+      | 'i' -> TInt (n_of_dec (num ()))
+      | 'f' -> TFloat (match next () with '0' -> FHalf | '1' -> FFloat | '2' -> FDouble | '3' -> FX86_FP80 | '4' -> FFP128 | _ -> FPPC_FP128)
+      | 'p' -> let a = n_of_dec (num ()) in let e = go () in TPtr (e, a)
+      | 'V' -> let sc = flag () in let l = n_of_dec (num ()) in let e = go () in TVec (sc, l, e)
+      | 'A' -> let l = n_of_dec (num ()) in let e = go () in TArr (l, e)
+      | 'S' -> let pk = flag () in let n = int_of_string (num ()) in
+               let fs = List.init n (fun _ -> ()) |> List.map (fun () -> go ()) in TStruct (pk, fs)
+      | 'N' -> let h = num () in TNamed (bytes_of_hx ("x" ^ h))
+      | 'F' -> let va = flag () in let n = int_of_string (num ()) in
+               let r = go () in let ps = List.init n (fun _ -> ()) |> List.map (fun () -> go ()) in TFunc (r, ps, va)
+      | c -> failwith "bad type encoding" in
+    let t = go () in
+    res := t :: !res;
+    rest := Stdlib.String.sub str !pos (Stdlib.String.length str - !pos)
+  done; List.rev !res
+let parse_bodies (s : ostring) =
+  if s = "" then [] else
+  List.map (fun e -> match Stdlib.String.split_on_char '=' e with
+    | [n; fs] -> (bytes_of_hx ("x" ^ n), parse_tys fs) | _ -> failwith "bodies") (Stdlib.String.split_on_char ',' s)
+let show_ty_opt = function Some t -> "Ok " ^ hx_of_bytes (ty_string t) | None -> "Panic"
+
 (* ---- dispatch: kind -> inputs -> outputs ---- *)
 let eval (kind : ostring) (ins : ostring list) : ostring list =
   match kind, ins with
@@ -153,6 +206,13 @@ let eval (kind : ostring) (ins : ostring list) : ostring list =
   | ("decode_metadata" | "decode_attachment"), [n] -> [match c11_dec_metadata (bytes_of_hx n) with Some s -> "Name " ^ hx_of_bytes s | None -> "None"]
   | "ty_string", [t] -> [hx_of_bytes (ty_string (parse_ty t))]
   | "equal", [t; u] -> [b2s (equal_go (parse_ty t) (parse_ty u))]
+  | "gep_result", [e; src; idxs; bodies] ->
+    let ix = if idxs = "" then [] else List.map (fun t -> match Stdlib.String.split_on_char ':' t with
+      | [h; v; l] -> mk_index (h = "1") (z_of_dec v) (n_of_dec l) | _ -> failwith "idx") (Stdlib.String.split_on_char ',' idxs) in
+    [show_ty_opt (gep_result (parse_bodies bodies) (parse_ty e) (parse_ty src) ix)]
+  | "gep_inst", [e; src; fs; bodies] -> [show_ty_opt (gep_inst (parse_bodies bodies) (parse_ty e) (parse_ty src) (parse_forms fs))]
+  | "gep_expr", [e; src; fs; bodies] -> [show_ty_opt (gep_expr (parse_bodies bodies) (parse_ty e) (parse_ty src) (parse_forms fs))]
+  | "gep_parse", [e; src; fs; bodies] -> [show_ty_opt (gep_parse (parse_bodies bodies) (parse_ty e) (parse_ty src) (parse_forms fs))]
   | _ -> failwith ("unknown kind " ^ kind)
 
 let () =
